@@ -9,6 +9,7 @@ From stdpp Require Import gmap.
 From Crdt Require Import model.VClock model.Simple model.Orswot model.MVReg model.List model.Merkle
   spec.System spec.Specs spec.OrswotSystem spec.MVRegSystem
   proofs.VClock proofs.Semilattice proofs.Simple proofs.OrswotSystem proofs.MVReg proofs.GListSystem proofs.MerkleSystem proofs.CrossType.
+From Crdt Require Import model.Map proofs.MapFacts proofs.MapRefuted.
 Local Open Scope N_scope.
 
 Theorem C02_orswot H (Hok : ohist_ok H) s1 K1 s2 K2 s3 K3 :
@@ -80,3 +81,56 @@ Theorem C02_lwwreg (S : lww → Prop) :
     lww_merge x y = lww_merge y x ∧ lww_merge (lww_merge x y) z = lww_merge x (lww_merge y z) ∧ lww_merge x x = x.
 Proof. exact (lww_merge_laws S). Qed.
 Print Assumptions C02_lwwreg.
+
+(** Map is REFUTED (known finding T1): Map<_,MVReg>, no remove at all; three replicas holding prefixes of a 3-op API-generated history; the two groupings of the merges read differently under key 0 *)
+Theorem C02_map_associativity_refuted_witness :
+  let s0 := mnew in
+         let op1 := upd_mv s0 3 1 7 in
+         let s1 := mv_apply s0 op1 in
+         let op2 := upd_mv s1 2 0 1 in
+         let s2 := mv_apply s1 op2 in
+         let op3 := upd_mv s2 2 0 0 in
+         let s3 := mv_apply s2 op3 in
+         let a := s2 in
+         let b := s1 in
+         let c := s3 in
+         op1 = MUp {| dactor := 3; dcounter := 1 |} 1 (MVPut {[3 := 1]} 7)
+         ∧ op2 = MUp {| dactor := 2; dcounter := 1 |} 0 (MVPut {[3 := 1; 2 := 1]} 1)
+           ∧ op3 = MUp {| dactor := 2; dcounter := 2 |} 0 (MVPut {[3 := 1; 2 := 2]} 0)
+             ∧ read_mv c 0 = Some [0]
+               ∧ read_mv (mv_merge (mv_merge a b) c) 0 = Some [0]
+                 ∧ read_mv (mv_merge a (mv_merge b c)) 0 = Some [1; 0]
+                   ∧ mv_merge (mv_merge a b) c ≠ mv_merge a (mv_merge b c).
+Proof. exact map_T1_assoc_refuted. Qed.
+Print Assumptions C02_map_associativity_refuted_witness.
+
+(** Map is REFUTED (known finding T3): two causal orders of the same four ops give states that are not == (a pending nested remove survives in one of them) although all reads agree *)
+Theorem C02_map_residue_refuted_witness :
+  let s0 := mnew in
+         let op0 := upd_or_add s0 0 0 2 in
+         let r0 := or_apply s0 op0 in
+         let op1 := upd_or_add r0 0 1 0 in
+         let r0' := or_apply r0 op1 in
+         let r1 := or_apply s0 op0 in
+         let op2 := upd_or_rm r1 1 0 2 in
+         let op3 := rm_key_all oop r0' 0 in
+         let op3' := rm_key oop r0' 0 in
+         let deliver := foldl or_apply s0 in
+         let x := deliver [op0; op1; op3; op2] in
+         let y := deliver [op0; op1; op2; op3] in
+         let x' := deliver [op0; op1; op3'; op2] in
+         let y' := deliver [op0; op1; op2; op3'] in
+         op0 = MUp {| dactor := 0; dcounter := 1 |} 0 (OAdd {| dactor := 0; dcounter := 1 |} [2])
+         ∧ op1 = MUp {| dactor := 0; dcounter := 2 |} 1 (OAdd {| dactor := 0; dcounter := 2 |} [0])
+           ∧ op2 = MUp {| dactor := 1; dcounter := 1 |} 0 (ORm {[0 := 1]} [2])
+             ∧ op3 = MRm {[0 := 2]} {[0]}
+               ∧ op3' = MRm {[0 := 1]} {[0]}
+                 ∧ Forall (λ k : N, read_or x k = read_or y k) [0; 1; 2]
+                   ∧ read_or x 0 = Some []
+                     ∧ eval <$> mentries x !! 0 =
+                       Some {| oclock := ∅; oentries := ∅; odeferred := {[{[0 := 1]} := {[2]}]} |}
+                       ∧ eval <$> mentries y !! 0 =
+                         Some {| oclock := ∅; oentries := ∅; odeferred := ∅ |}
+                         ∧ x ≠ y ∧ x' ≠ y' ∧ x = x' ∧ y = y'.
+Proof. exact map_T3_residue_refuted. Qed.
+Print Assumptions C02_map_residue_refuted_witness.
